@@ -234,7 +234,13 @@ func (fc *fakeConsul) RoundTrip(req *http.Request) (*http.Response, error) {
 			if sid := q.Get("acquire"); sid != "" {
 				s := fc.sess[sid]
 				if s == nil || s.dead {
-					fc.logf(node, "acquire", sid, "invalid-session")
+					// a session the node did not create itself is a lease that was
+					// handed to it, not an attempt on a free lease
+					call := "acquire"
+					if s != nil && s.node != node {
+						call = "acquire-existing"
+					}
+					fc.logf(node, call, sid, "invalid-session")
 					return fc.resp(req, 500, "invalid session"), nil
 				}
 				e := fc.kv[key]
